@@ -130,6 +130,9 @@ func (r *renderer) restriction(x Restriction) {
 
 func (r *renderer) direct(restr []Restriction) {
 	r.w("[")
+	if len(restr) == 0 {
+		r.ws0("")
+	}
 	for i, x := range restr {
 		if i > 0 {
 			r.w(",")
@@ -150,10 +153,12 @@ func (r *renderer) direct(restr []Restriction) {
 }
 
 func (r *renderer) rewrite(rw *Rewrite, top bool, restr []Restriction) {
-	extra := r.pickN("paren", 3)
-	n := extra
-	if !top && rw.Kind >= Union {
-		n++
+	n := 0
+	if !rw.NoParen {
+		n = r.pickN("paren", 3)
+		if !top && rw.Kind >= Union {
+			n++
+		}
 	}
 	for i := 0; i < n; i++ {
 		r.w("(")
@@ -188,7 +193,7 @@ func (r *renderer) rewrite(rw *Rewrite, top bool, restr []Restriction) {
 }
 
 func (r *renderer) paramType(p Param) string {
-	if p.Type == "list" || p.Type == "map" {
+	if p.Generic != "" {
 		return p.Type + "<" + p.Generic + ">"
 	}
 	return p.Type
@@ -202,16 +207,34 @@ func Render(m *Model, lay *Layout) *Rendered {
 		r.style = lay.Style
 	}
 	r.w(r.pick("lead", "", "\n", "# header comment\n", "  ", "\n  \n# c1\n# c2\n"))
-	if m.Module != "" {
+	modHdr := func() {
 		r.w("module")
 		r.ws1()
-		r.w(m.Module)
-	} else {
+		r.w(orDefault(m.Module, "injected"))
+	}
+	mdlHdr := func() {
 		r.w("model")
 		r.nl("  ", false)
 		r.w("schema")
 		r.ws1()
-		r.w(m.Schema)
+		r.w(orDefault(m.Schema, "1.1"))
+	}
+	switch {
+	case m.Hdr == 1:
+		mdlHdr()
+		r.nl("", false)
+		modHdr()
+	case m.Hdr == 2:
+		modHdr()
+		r.nl("", false)
+		mdlHdr()
+	case m.Hdr == 3:
+		// no header: the first declaration still needs its leading NEWLINE to be
+		// grammatical on its own, which the loops below write
+	case m.Module != "":
+		modHdr()
+	default:
+		mdlHdr()
 	}
 	for ti, t := range m.Types {
 		r.nl("", true)
@@ -289,6 +312,13 @@ func Render(m *Model, lay *Layout) *Rendered {
 	}
 	r.w(r.pick("end", "\n", "", "\n\n\n", "\n# trailing comment", "\n   ", "\r\n"))
 	return &Rendered{Text: r.sb.String(), Marks: r.marks, Sites: r.sites}
+}
+
+func orDefault(s, d string) string {
+	if s == "" {
+		return d
+	}
+	return s
 }
 
 func markT(i int) string    { return "T" + itoa(i) }
